@@ -53,30 +53,31 @@ type lifeClient struct {
 }
 
 type lifeScenario struct {
-	Callbacks      int    // bit0 OnServe, bit1 OnError, bit2 OnAccept, bit3 OnClose
-	Action         string // "shutdown" | "shutdown_tight" | "cancel"
-	ActionAt       time.Duration
-	ShutdownCtx    time.Duration
-	Clients        []lifeClient
-	RejectEvery    int // OnAccept rejects every n-th connection (0 = never)
-	OnServeWork    time.Duration
-	CallbackWork   time.Duration
-	ReadTimeout    time.Duration
-	AddrCaller     bool
-	Second         string        // "" | "shutdown" | "cancel": a second lifecycle call by another goroutine
-	SecondAfter    time.Duration // that long after the first one was issued
-	Trigger        string        // what the controller waits for before acting: "time" | "handler_start" | "handler_end" | "accept" | "write_begin"
-	TriggerN       int           // the n-th such event
-	TriggerDelay   time.Duration // then this much later
-	WriteDelay     time.Duration // simulated duration of every server-side write
-	DoubleCloseErr bool          // server-side connections fail a second Close, as real sockets do
-	SecondServe    string        // "" | "cancel" | "shutdown": after a serving that ended by context cancellation the same Server value serves again on a new listener, and that serving is ended this way
-	LongSession    bool          // the lifecycle action comes only after 26-30 simulated seconds: connections that stay silent are closed by the server's idle limit first
-	ManyClients    bool          // some 300 short-lived connections before the lifecycle action
-	Epoch          bool          // one connection that has been answered more than 65536 times when the lifecycle action finds its next request in the handler
-	OwnCloseErr    bool          // the listener's Accept answers with an error of its own once it is closed (as in-memory listeners do), not net.ErrClosed
-	SameAddr       bool          // every connection reports the same remote address (as on a net.Pipe or unix-socket listener): callbacks cannot tell connections apart, per-connection callback oracles become totals
-	Race           bool
+	Callbacks          int    // bit0 OnServe, bit1 OnError, bit2 OnAccept, bit3 OnClose
+	Action             string // "shutdown" | "shutdown_tight" | "cancel"
+	ActionAt           time.Duration
+	ShutdownCtx        time.Duration
+	Clients            []lifeClient
+	RejectEvery        int // OnAccept rejects every n-th connection (0 = never)
+	OnServeWork        time.Duration
+	CallbackWork       time.Duration
+	ReadTimeout        time.Duration
+	AddrCaller         bool
+	Second             string        // "" | "shutdown" | "cancel": a second lifecycle call by another goroutine
+	SecondAfter        time.Duration // that long after the first one was issued
+	Trigger            string        // what the controller waits for before acting: "time" | "handler_start" | "handler_end" | "accept" | "write_begin"
+	TriggerN           int           // the n-th such event
+	TriggerDelay       time.Duration // then this much later
+	WriteDelay         time.Duration // simulated duration of every server-side write
+	DoubleCloseErr     bool          // server-side connections fail a second Close, as real sockets do
+	SecondServe        string        // "" | "cancel" | "shutdown": after a serving that ended by context cancellation the same Server value serves again on a new listener, and that serving is ended this way
+	LongSession        bool          // the lifecycle action comes only after 26-30 simulated seconds: connections that stay silent are closed by the server's idle limit first
+	ManyClients        bool          // some 300 short-lived connections before the lifecycle action
+	Epoch              bool          // one connection that has been answered more than 65536 times when the lifecycle action finds its next request in the handler
+	ReentrantCallbacks bool          // the accept, close and error callbacks ask the server for its address while they run
+	OwnCloseErr        bool          // the listener's Accept answers with an error of its own once it is closed (as in-memory listeners do), not net.ErrClosed
+	SameAddr           bool          // every connection reports the same remote address (as on a net.Pipe or unix-socket listener): callbacks cannot tell connections apart, per-connection callback oracles become totals
+	Race               bool
 }
 
 type acceptObs struct {
@@ -263,6 +264,7 @@ func genC17(t *Tape) *lifeScenario {
 	sc.DoubleCloseErr = t.Choose(2) == 1
 	sc.SameAddr = t.Choose(5) == 0
 	sc.OwnCloseErr = t.Choose(4) == 0
+	sc.ReentrantCallbacks = t.Choose(3) == 0
 	if !sc.ManyClients && t.Chance(1, 40) {
 		sc.LongSession = true
 		sc.Trigger, sc.TriggerDelay = "time", 0
@@ -439,6 +441,13 @@ func runLife(rc *RunCtx, sc *lifeScenario, seed uint64) *lifeOutcome {
 		})
 	}
 	srv := &server.Server{ReadTimeout: sc.ReadTimeout}
+	// callbacks are the application's code and may ask the server things (its address, for a log line): the server must not
+	// call them with its own lock held
+	reenter := func() {
+		if sc.ReentrantCallbacks && !sc.Race {
+			s.AsTask("callback-asks-addr", func() { _ = srv.Addr() })
+		}
+	}
 	adds, nAccept := 0, 0
 	if sc.Callbacks&1 != 0 {
 		srv.OnServeFunc = func(addr net.Addr) {
@@ -462,6 +471,7 @@ func runLife(rc *RunCtx, sc *lifeScenario, seed uint64) *lifeOutcome {
 			out.mu.Lock()
 			out.Errors = append(out.Errors, err.Error())
 			out.mu.Unlock()
+			reenter()
 		}
 	}
 	tracked := map[string]bool{} // remote names of connections accepted and not rejected
@@ -506,6 +516,7 @@ func runLife(rc *RunCtx, sc *lifeScenario, seed uint64) *lifeOutcome {
 				out.mu.Unlock()
 			}
 			s.Logf("cb OnAccept %s count=%d", remote, count)
+			reenter()
 			cbPark("OnAccept", sc.CallbackWork)
 			if reject {
 				return errors.New("rejected by firewall rule")
@@ -528,6 +539,7 @@ func runLife(rc *RunCtx, sc *lifeScenario, seed uint64) *lifeOutcome {
 			out.CloseCBFlag[remote.String()] = isShutdown
 			out.mu.Unlock()
 			s.Logf("cb OnClose %s shutdown=%v", remote, isShutdown)
+			reenter()
 			cbPark("OnClose", sc.CallbackWork)
 		}
 	}
